@@ -231,6 +231,14 @@ pub fn run(out: &mut Out, tier: &str, rng: &mut Rng) {
         let c = if rng.chance(2, 3) { rand_f32(rng, (a - bb).abs(), a + bb) } else { rand_f32(rng, 0.0, 120.0) };
         loc(out, a, bb, c);
     }
+    // the same shapes at every scale (the angle does not depend on it): 1e-9 … 1e4
+    for _ in 0..1500 * k {
+        let (a, bb) = (rand_f32(rng, 0.5, 5.0), rand_f32(rng, 0.5, 5.0));
+        let c = if rng.chance(3, 4) { rand_f32(rng, (a - bb).abs(), a + bb) } else { rand_f32(rng, 0.0, 12.0) };
+        let sc = *rng.pick(&[1.0e-9f32, 1.0e-7, 1.0e-6, 1.0e-5, 1.0e-4, 3.0e-4, 1.0e-3, 1.0e-2, 1.0, 100.0, 2000.0]);
+        loc(out, a * sc, bb * sc, c * sc);
+        out.count(&format!("law_of_cosines at scale {:e}", sc));
+    }
     for s in SPECIAL {
         loc(out, s, 1.0, 1.0);
         loc(out, 1.0, s, 1.0);
